@@ -382,6 +382,27 @@ def t_noglobal(ck, ctx, prop):
                     ck.ob("T-NOGLOBAL.shared-store", f"{f.qual}:{a.kind} {a.path}", False,
                           "class / module attribute written on the construct/run path is shared by all parser objects",
                           f.loc(a.node))
+        # attribute / item store through a LOCAL that was taken out of a module-level registry (`c = registry.get(k); c.x = ...`):
+        # the object belongs to the module, whatever is stored on it is shared by every parser object, run and output mode
+        taken = {}
+        for n in ast.walk(f.node):
+            if isinstance(n, ast.Assign) and len(n.targets) == 1 and isinstance(n.targets[0], ast.Name):
+                for x in ast.walk(n.value):
+                    if isinstance(x, ast.Name) and not _is_local(f, x.id) and (
+                            x.id in f.module.assigns or (x.id in f.module.imports and (m.resolve_symbol(f.module, x.id) or ("",))[0] == "value")):
+                        val = f.module.assigns.get(x.id)
+                        if val is None or isinstance(val, (ast.Dict, ast.List, ast.Set, ast.Call, ast.DictComp, ast.ListComp)):
+                            # (looked up / indexed / iterated - not merely tested or measured)
+                            if not isinstance(n.value, (ast.Compare, ast.BoolOp)) and not (
+                                    isinstance(n.value, ast.Call) and isinstance(n.value.func, ast.Name) and n.value.func.id in ("len", "bool", "sorted", "list", "dict", "set", "tuple")):
+                                taken[n.targets[0].id] = x.id
+        for a in eff.accesses(f):
+            if a.kind in ("store", "mutate", "del") and "." in a.path:
+                head = a.path.split(".")[0]
+                if head in taken and head not in ("self",):
+                    ck.ob("T-NOGLOBAL.shared-store", f"{f.qual}:{a.kind} {a.path} (taken from module-level {taken[head]})", False,
+                          "an object taken out of a module-level registry is written on the construct/run path: it is shared by every parser "
+                          "object, every run() and every output mode of the process", f.loc(a.node))
         # item store / delete on a module-level container through a bare name (a process-wide cache or registry)
         for n in ast.walk(f.node):
             tgts = []
@@ -708,6 +729,11 @@ def _is_set_expr(e):
     if isinstance(e, (ast.Set, ast.SetComp)):
         return True
     if isinstance(e, ast.Call) and isinstance(e.func, ast.Name) and e.func.id in ("set", "frozenset"):
+        return True
+    # set algebra on dict views: d.keys() & e.keys(), d.keys() - s, d.items() ^ ... yield sets
+    if isinstance(e, ast.BinOp) and isinstance(e.op, (ast.Sub, ast.BitOr, ast.BitAnd, ast.BitXor)) and any(
+            isinstance(x, ast.Call) and isinstance(x.func, ast.Attribute) and x.func.attr in ("keys", "items") and not x.args
+            for x in (e.left, e.right)):
         return True
     if isinstance(e, ast.BinOp) and isinstance(e.op, (ast.Sub, ast.BitOr, ast.BitAnd, ast.BitXor)) and (
             _is_set_expr(e.left) or _is_set_expr(e.right)):
